@@ -14,7 +14,37 @@ CHAIN_NOTE = ('Modelled not verified: signature extraction by boltons FunctionBu
               'signatures and record what they receive), CPython keyword-call semantics (sig_accepts), user middlewares '
               'calling next() with their declared provides; set iteration order (quantified by hash seeds in the thorough tier). ')
 
+DISPATCH_NOTE = ('Modelled not verified: werkzeug Request/Response/redirect, ExceptionInfo.from_current, the '
+                 'Accept negotiation inside render_error; whether a pattern matches is an input of the dispatch model '
+                 '(C05 decides it); what executing a route yields is abstracted to an outcome (Model/Exec supplies it). ')
+
 CLAIMED = {
+ 'C06': dict(
+   text=('Theorems (Props/C06.v) over a Gallina transcription of Application.dispatch / DispatchState / the catch-all '
+         'route / Route.__init__ method normalisation / match_method: for every routing table of any length, method, '
+         'handler kind: the accumulator loop equals a declarative spec; the first route in list order that matches, '
+         'admits the method and does not fail softly answers; no match => 404; matched-but-not-admitted => 405 whose '
+         'Allow is exactly the union of the methods of the path-matching routes; otherwise the most recent non-breaking '
+         'error; GET implies HEAD, method comparison case-insensitive, no methods admits all, unknown method => '
+         'InvalidMethod; HTTP_METHODS (regenerated from route.py) is the standard nine. Tie: translator (tables, '
+         'normalize_path) + differential run of the extracted model against real applications (tables built by '
+         'constructor and by add(entry, index) sequences, request sequences, header markers).'),
+   note=COMMON_NOTE + DISPATCH_NOTE,
+   technique='Coq proof (refinement of the dispatch loop to a declarative specification by induction over the routing table) + translator-generated tables + extracted-model differential check',
+   design='6/C06'),
+ 'C08': dict(
+   text=('Theorems (Props/C08.v) over the same dispatch model extended with uncaught_to_response and the execute_error / '
+         'default_render_error fallback: for every routing table, every behaviour of every route (Response, '
+         'HTTPException raised/returned, breaking or not, non-Response, any exception, reroute), every error renderer '
+         '(adapts / raises / returns something else / not callable), method and path, serve yields a response unless the '
+         'handler re-raises, and then what escapes is an exception some route raised (TypeError for a non-Response); '
+         'uncaught => 500; an HTTPException keeps its own status; a failing renderer falls back to the default rendering of '
+         'the same error. The model has no state, so statelessness of the implementation is the correspondence: request '
+         'sequences (failing and succeeding, 7 handler kinds, 7 Accept headers, unprintable/huge/non-ASCII exception '
+         'arguments) against ONE application object must match the per-request prediction.'),
+   note=COMMON_NOTE + DISPATCH_NOTE,
+   technique='Coq proof (case analysis + induction over the routing table on the dispatch/error-handling model) + extracted-model differential check on request histories',
+   design='6/C08'),
  'C01': dict(
    text=('Theorems (Props/C01.v) over a Gallina transcription of chain_argspec/make_chain/build_chain_str/'
          'make_middleware_chain/check_middlewares/cycle test/Application.__init__ and a definitional interpreter of the '
